@@ -287,7 +287,7 @@ _RE_STATES = re.compile(r'(\d+) states generated, (\d+) distinct states found')
 _RE_DEPTH = re.compile(r'The depth of the complete state graph search is (\d+)')
 _RE_INV = re.compile(r'Error: Invariant (\S+) is violated')
 _RE_PROP = re.compile(r'Error: Action property (\S+) is violated|Error: Temporal properties were violated')
-_RE_COV = re.compile(r'^<(\w+) line \d+, col \d+ to line \d+, col \d+ of module (\w+)>: (\d+):(\d+)', re.M)
+_RE_COV = re.compile(r'^<(\w+) line \d+, col \d+ to line \d+, col \d+ of module (\w+)(?: \([\d ]+\))?>: (\d+):(\d+)', re.M)
 
 
 def run_tlc(module, cfg_text, *, workers=None, timeout=3600, simulate=None, depth=None,
